@@ -377,6 +377,9 @@ static enum bufferevent_filter_result filt_run2(struct fctx *fx, int out, struct
 				if (n > cap - moved) n = cap - moved;
 				if (n && evbuffer_remove_buffer(src, dst, n) != (int)n) return BEV_ERROR;
 				fx->in_remaining -= n; avail -= n; moved += n; *movedp = moved;
+				/* one record per call, like a real decoder: the library has to call again, and the next
+				 * call may find only a fragment of a header (NEED_MORE after OK within one pass) */
+				if (!fx->in_remaining && moved) break;
 			}
 		}
 		break;
@@ -1036,7 +1039,11 @@ static int build_stack(struct session *s, struct endpoint *ep, struct buffereven
 		fx->type = t; fx->ep = ep; fx->layer = ep->nl; fx->k = s->chunk_k[side][j];
 		fx->xkey_out = side ? s->xk_rev[j] : s->xk_fwd[j];
 		fx->xkey_in = side ? s->xk_fwd[j] : s->xk_rev[j];
-		fx->rec_max = 1 + (size_t)vh_below(&s->rng, 65535);
+		{
+			/* small records => many 2-byte headers => headers split across reads (filter says NEED_MORE after OK) */
+			static const size_t rm[] = { 1, 3, 16, 300, 5000, 65535 };
+			fx->rec_max = VH_PICK(&s->rng, rm);
+		}
 		vh_rng_seed(&fx->rng, vh_rand(&s->rng));
 		bev = bufferevent_filter_new(ep->top, t == FT_NULL ? NULL : filt_in, t == FT_NULL ? NULL : filt_out,
 		    s->opt[side][ep->nl], fctx_free, fx);
